@@ -15,7 +15,7 @@ import fuzzylite as fl
 PID = "C06"
 MODULES = ["FlVerif.Props.C06"]
 NAMESPACE = "C06"
-TIE_A = ["Norm.", "Hedge.", "code:fuzzylite.term.Function.infix_to_postfix"]
+TIE_A = ["Norm.", "Hedge.", "code:fuzzylite.term.Function.infix_to_postfix", "code:fuzzylite.rule.Antecedent.load"]
 RULE = ("antecedent trees to depth 4 over 1-3 input variables and 1-2 output variables (with 0-3 prior activations, "
         "repeated terms, every aggregation operator or none), 0-3 hedges per proposition, `any`, disabled variables, "
         "written with minimal | random redundant | full parentheses, with / without spaces around parentheses, every "
